@@ -199,6 +199,7 @@ func checkCase(c Case, r *vf.R) error {
 	if !rtl {
 		paraLast = paragraphEnds(input, lines)
 	}
+	anchor0 := math.NaN() // common right edge / centre of the lines of a text without box width
 	for li, l := range lines {
 		// visual order: the spans of a line are given in logical order with their embedding levels; from the highest level down to 1 every maximal sequence of spans at that level or higher is reversed (UAX #9, L2), and the spans abut from the left-most position in that order
 		if err := checkVisualOrder(li, l.spans, input, r); err != nil {
@@ -246,6 +247,22 @@ func checkCase(c Case, r *vf.R) error {
 			}
 		}
 		// 5. alignment
+		if c.Width == 0 && c.Indent == 0 && len(sp) > 0 {
+			// without a box width nothing is wrapped; right-aligned lines still share their right edge and centred
+			// lines their centre (whatever the anchor is)
+			switch c.HAlign {
+			case 1:
+				if !math.IsNaN(anchor0) && math.Abs(right-anchor0) > 1e-6 {
+					return vf.Errorf("right aligned line %d ends at x=%v, an earlier line at x=%v (no box width; input %q)", li, right, anchor0, input)
+				}
+				anchor0 = right
+			case 2:
+				if !math.IsNaN(anchor0) && math.Abs((left+right)/2-anchor0) > 1e-6 {
+					return vf.Errorf("centred line %d is centred at x=%v, an earlier line at x=%v (no box width; input %q)", li, (left+right)/2, anchor0, input)
+				}
+				anchor0 = (left + right) / 2
+			}
+		}
 		if c.Width > 0 && !txt.Overflows {
 			switch c.HAlign {
 			case 0:
@@ -531,7 +548,8 @@ func genL(t *rapid.T) LCase {
 			sb.WriteString(words[rapid.IntRange(0, len(words)-1).Draw(t, "w")])
 		}
 		if i+1 < n {
-			sb.WriteString([]string{" ", " ", "\n", "  "}[rapid.IntRange(0, 3).Draw(t, "s")])
+			// spaces, and every paragraph separator the line splitter knows (one, two and three bytes long)
+			sb.WriteString([]string{" ", " ", "\n", "  ", " ", "\n", "\r\n", "\r", "\v", "\f", "\u0085", "\u2028", "\u2029"}[rapid.IntRange(0, 12).Draw(t, "s")])
 		}
 	}
 	return LCase{Text: sb.String(), Face: rapid.IntRange(0, 2).Draw(t, "face"), HAlign: rapid.IntRange(0, 2).Draw(t, "halign")}
@@ -583,7 +601,13 @@ func checkL(c LCase, r *vf.R) error {
 	if visible(out.String()) != visible(c.Text) {
 		return vf.Errorf("NewTextLine lays out %q for %q", out.String(), c.Text)
 	}
-	if want := strings.Count(c.Text, "\n") + 1; nlines != want {
+	want := 1 - strings.Count(c.Text, "\r\n") // CR LF is one separator
+	for _, r := range c.Text {
+		if r >= 0x0A && r <= 0x0D || r == 0x85 || r == 0x2028 || r == 0x2029 {
+			want++
+		}
+	}
+	if nlines != want {
 		return vf.Errorf("NewTextLine produced %d lines for %q", nlines, c.Text)
 	}
 	if nlines >= 2 {
